@@ -328,6 +328,16 @@ def main():
         tags = [k for k in ("USING", "NATURAL", "FULL JOIN", "LEFT JOIN", "RIGHT JOIN", "JOIN", "GROUP BY", "HAVING", "DISTINCT", "UNION", "INTERSECT", "EXCEPT", "ORDER BY", "LIMIT", "WITH") if k in s]
         return "+".join(tags[:3]) or "select"
     import c01
+    def role(kind, base, why=""):
+        """role of a counterexample: the construct of the original text that the defect needs"""
+        up = base["sql"].upper()
+        if kind == "names" and any(k in up for k in (" UNION ", " INTERSECT ", " EXCEPT ")):
+            return "roundtrip=names/set-operation-sides-named-differently"
+        if kind == "rows" and re.search(r"GROUP BY\s+(\d+\s*,\s*)*\d+\b", up):
+            return "roundtrip=rows/group-by-position"
+        if kind == "invalid" and why.startswith("unknown column") and "ORDER BY" in up:
+            return "roundtrip=rendered-sql-invalid/order-by-column-outside-select-list"
+        return "roundtrip=%s/%s" % (kind, shape(base["sql"]))
     for why, base in rejected:
         # original text runs, rendered text does not: run both on the empty database
         empty = {p_: [] for p_ in tj_by_path}
@@ -341,11 +351,11 @@ def main():
             stats["unsupported"]["rendered: " + why] = stats["unsupported"].get("rendered: " + why, 0) + 1
         except Exception as ex:
             replayed += 1
-            ck.violation("roundtrip=rendered-sql-invalid/%s" % shape(base["sql"]), "`%s` runs, but the SQL rendered from its relation is rejected (reference front end: %s; SQLite: %s): %s" % (base["sql"], why, str(ex)[:120], base["rendered"][:500]),
+            ck.violation(role("invalid", base, why), "`%s` runs, but the SQL rendered from its relation is rejected (reference front end: %s; SQLite: %s): %s" % (base["sql"], why, str(ex)[:120], base["rendered"][:500]),
                          dict(sql=base["sql"], rendered=base["rendered_sqlite"], error=str(ex)))
     for why, base in statics:
         # names / width / order structure: confirm on SQLite with the empty database (column names) when it is about names
-        ck.violation("roundtrip=%s/%s" % ("names" if why.startswith("output names") else "structure", shape(base["sql"])), "`%s` -> `%s`: %s" % (base["sql"], base["rendered"][:400], why), dict(sql=base["sql"], rendered=base["rendered"]))
+        ck.violation(role("names" if why.startswith("output names") else "structure", base), "`%s` -> `%s`: %s" % (base["sql"], base["rendered"][:400], why), dict(sql=base["sql"], rendered=base["rendered"]))
     for r in results:
         info = meta[r["id"]]
         if info["what"] == "witness":
@@ -366,7 +376,7 @@ def main():
         b = [tuple(norm(v) for v in row) for row in rows1]
         differs = (a != b) if (info["what"] == "order") else (sorted(a, key=repr) != sorted(b, key=repr))
         if differs:
-            ck.violation("roundtrip=%s/%s" % ("order" if info["what"] == "order" else "rows", shape(info["sql"])),
+            ck.violation(role("order" if info["what"] == "order" else "rows", info),
                          "`%s` returns %s but the SQL rendered from its relation returns %s on %s; rendered: %s" % (info["sql"], a, b, shown, info["rendered"][:600]),
                          dict(sql=info["sql"], rendered=info["rendered_sqlite"], db=shown, original_rows=a, rendered_rows=b))
         else:
